@@ -18,10 +18,17 @@ def run(chk):
         "Norm is trim-then-strip in one pass, exactly as both registration and lookup apply it (it is not idempotent on "
         "strings like '/ /' whose white space is exposed by stripping the slashes; C11 only requires both sides to agree)",
     ]
-    alpha = ["/", "SP", "a", ".", "TAB", "NBSP", "VT"] if thorough else ["/", "SP", "a", ".", "NBSP"]
-    r1 = mc(chk, "text", 5 if thorough else 4, 2, 1, alpha)
+    # (the reach relation is judged for every PAIR of texts: thorough = six tokens up to length 4, and length 5 over
+    # four tokens (with TAB); every text also carries its registered path under all prefix lists <=2, which is what fills the memory)
+    alpha = ["/", "SP", "a", ".", "NBSP", "VT"] if thorough else ["/", "SP", "a", ".", "NBSP"]
+    r1 = mc(chk, "text", 4, 2, 1, alpha)
     chk.expect_holds(r1, "laws of RuxPath, FormatPath = Norm")
-    chk.add_tlc(r1, "all token strings <=%d over %s, prefixes <=2" % (5 if thorough else 4, alpha))
+    chk.add_tlc(r1, "all token strings <=4 over %s, prefixes <=2" % alpha)
+    if thorough:
+        r1b = mc(chk, "text", 5, 2, 1, ["/", "TAB", "a", "."])
+        chk.expect_holds(r1b, "laws of RuxPath, FormatPath = Norm (longer texts)")
+        chk.add_tlc(r1b, "all token strings <=5 over [/, TAB, a, .], prefixes <=2")
+        r1.lines = r1.lines + r1b.lines
     r2 = mc(chk, "url", 1, 1, 5 if thorough else 4, alpha)
     chk.expect_holds(r2, "url instance")
     chk.add_tlc(r2, "all raw URL token strings <=%d over {/, a, %%2F, %%20, %%61}" % (5 if thorough else 4))
